@@ -50,11 +50,13 @@ func (k *G2Elt) Equal(k2 kyber.Point) bool {
 }
 
 func (k *G2Elt) Null() kyber.Point {
-	return newG2(bls12381.NewG2().Zero(), k.dst)
+	k.p.Set(bls12381.NewG2().Zero())
+	return k
 }
 
 func (k *G2Elt) Base() kyber.Point {
-	return newG2(bls12381.NewG2().One(), k.dst)
+	k.p.Set(bls12381.NewG2().One())
+	return k
 }
 
 func (k *G2Elt) Pick(rand cipher.Stream) kyber.Point {
